@@ -495,7 +495,7 @@ func isDeclaredDead(ct *Contract, name string) bool {
 		return false
 	}
 	for _, d := range ct.Dead {
-		if strings.HasSuffix(name, "@"+d) || strings.Contains(name, "@"+d+"#") {
+		if strings.HasSuffix(name, "@"+d) || strings.Contains(name, "@"+d+"#") || strings.HasSuffix(name, "/"+d) {
 			return true
 		}
 	}
